@@ -37,10 +37,8 @@ def check(repo: Repo, rep: Report) -> None:
         if stopped is False:
             ok = ok and p.kinds == ["CHECK", "APPEND", "NEXT:self.value"] and SC.ret_kind(p) == "InnerSubscription"
         elif stopped is True:
-            ex = p.decided("ex")
-            if ex is None:
-                ex = p.decided("ex is not None")
-            want = ["ERR:ex"] if ex else ["COMPL:"]
+            ex = SC.decided_field(sub, p, "exception")
+            want = ["ERR:self.exception"] if ex else ["COMPL:"]
             ok = ok and p.kinds[1:] == want and SC.ret_kind(p) == "Disposable"
         else:
             ok = False
